@@ -35,7 +35,7 @@ theorem deadlock_panic_is_local (n n' : Net) (a b : Nat) (hs : Net.step? n (.ask
     (hdl : (a == b || Extracted.has_path n.graph b a) = true) :
     n'.graph = n.graph ∧ n'.busy = n.busy ∧ n'.tokOf = n.tokOf ∧ (∀ x, x ≠ a → n'.dead x = n.dead x) ∧
     (∀ t, (n.asks t).callee ≠ a → n'.asks t = n.asks t) := by
-  simp only [Net.step?] at hs
+  simp only [Net.step?, Net.stepWith] at hs
   split at hs
   · cases hs
   · first
@@ -58,7 +58,7 @@ theorem survivors_not_stuck_on_victim (n n' : Net) (y : Nat) (hs : Net.step? n (
     (hc : (n.asks t).callee = y) (hst : (n.asks t).st = .inflight) (hnb : n.busy y ≠ some t) :
     ∃ n'', Net.step? n' (.resume t) = some n'' := by
   have hl : (n'.asks t).st = .lost := by
-    simp only [Net.step?] at hs
+    simp only [Net.step?, Net.stepWith] at hs
     split at hs
     · cases hs
     · cases hs
@@ -67,7 +67,7 @@ theorem survivors_not_stuck_on_victim (n n' : Net) (y : Nat) (hs : Net.step? n (
       | some t0 =>
         have : t ≠ t0 := by intro he; subst he; exact hnb hb
         simp only [flags.2, if_true, loseTo, clear_asks, setN, this, if_false, hc, hst, and_self]
-  simp [Net.step?, hl]
+  simp [Net.step?, Net.stepWith, hl]
 
 -- non-vacuity: a handler panics while an ask is queued behind it: JoinError, no on_stop, the queued ask fails
 example : ∃ s, Model.run? (Model.init 2 {})
